@@ -15,7 +15,7 @@ RULES = {
     "C08": [("sa.rules.b3", "r_C08_C34"), ("sa.rules.b3", "r_C02cd"), ("sa.rules.c08", "r_C08bc")],
     "C09": [("sa.rules.b3", "r_C09"), ("sa.rules.b3", "r_C07"), ("sa.rules.cmisc", "r_C13d_C34f_C09d"), ("sa.rules.c08", "r_C08bc"), ("sa.rules.b3", "r_C08_C34")],
     "C10": [("sa.rules.b3", "r_C05_C10"), ("sa.rules.c05", "r_none_tests"), ("sa.rules.cmisc", "r_C10e")],
-    "C11": [("sa.rules.b3", "r_C03de_C11a_C17bc"), ("sa.rules.c11", "r_C11b"), ("sa.rules.c11", "r_C11de"), ("sa.rules.c05", "r_none_tests")],
+    "C11": [("sa.rules.b3", "r_C03de_C11a_C17bc"), ("sa.rules.c11", "r_C11b"), ("sa.rules.c11", "r_C11de"), ("sa.rules.c32", "r_C32c"), ("sa.rules.c05", "r_none_tests")],
     "C12": [("sa.rules.b1", "r_C12a"), ("sa.rules.c12", "r_C12b"), ("sa.rules.c05", "r_C12c"), ("sa.rules.c11", "r_C11de")],
     "C13": [("sa.rules.b3", "r_C13"), ("sa.rules.cmisc", "r_C13d_C34f_C09d")],
     "C14": [("sa.rules.b4", "r_ledger"), ("sa.rules.b1", "r_C14c"), ("sa.rules.c14", "r_ledger2"), ("sa.rules.b3", "r_C13"), ("sa.rules.c14", "r_C14h"), ("sa.rules.c14", "r_C14d"), ("sa.rules.c14", "r_C14i")],
@@ -32,11 +32,11 @@ RULES = {
     "C25": [("sa.rules.b2", "r_C25"), ("sa.rules.c25", "r_C25efg")],
     "C26": [("sa.rules.b2", "r_C26a"), ("sa.rules.b2", "r_C26bcdef")],
     "C27": [("sa.rules.b1", "r_C27"), ("sa.rules.c25", "r_C27d")],
-    "C28": [("sa.rules.b7", "r_origin"), ("sa.rules.b3", "r_C28b_C33b_C30bc"), ("sa.rules.c08", "r_C08bc"), ("sa.rules.cmisc", "r_C06bcd"), ("sa.rules.c25", "r_C28cd")],
-    "C29": [("sa.rules.b5", "r_C29"), ("sa.rules.c29", "r_export2")],
+    "C28": [("sa.rules.b7", "r_origin"), ("sa.rules.b3", "r_C28b_C33b_C30bc"), ("sa.rules.c08", "r_C08bc"), ("sa.rules.cmisc", "r_C06bcd"), ("sa.rules.c25", "r_C28cd"), ("sa.rules.c25", "r_C28e")],
+    "C29": [("sa.rules.b5", "r_C29"), ("sa.rules.c29", "r_export2"), ("sa.rules.c29", "r_C29e")],
     "C30": [("sa.rules.b1", "r_C30a"), ("sa.rules.b3", "r_C28b_C33b_C30bc"), ("sa.rules.c29", "r_cli2")],
     "C31": [("sa.rules.b4", "r_ledger"), ("sa.rules.c14", "r_ledger2"), ("sa.rules.c29", "r_export2")],
-    "C32": [("sa.rules.c32", "r_C32")],
+    "C32": [("sa.rules.c32", "r_C32"), ("sa.rules.c32", "r_C32c")],
     "C33": [("sa.rules.b1", "r_C33a"), ("sa.rules.b3", "r_C28b_C33b_C30bc"), ("sa.rules.c29", "r_C33c_C34g")],
     "C34": [("sa.rules.b3", "r_C08_C34"), ("sa.rules.c08", "r_C08bc"), ("sa.rules.cmisc", "r_C13d_C34f_C09d"), ("sa.rules.c29", "r_C33c_C34g")],
 }
